@@ -74,7 +74,25 @@ Inductive case :=
    failed), 2 auth failure with an id (dialled-id or NodeInfo-id mismatch), 4 NodeInfo invalid,
    6 self, 7 incompatible; on ok, whether the ids the transport reports are those of [key] *)
 | CUpgrade (key : option N) (dialed : option N) (ni : option N) (valid : bool) (own : N)
-           (compat : bool) (res_i : N) (ids_ok : bool).
+           (compat : bool) (res_i : N) (ids_ok : bool)
+(* two real SecretConnections after a real handshake over a transport that FAILS.  The writer's
+   net.Conn is wrapped: the k-th conn.Write of the data phase succeeds (script entry -1) or
+   returns an error after passing on the first m >= 0 bytes (entry m: 0 nothing, 1..1043 a part,
+   1044 all of it); the caller goes on calling Write.  hs_ok/send0/recv0/buf0/writes as in CStream.
+   wres_i: per Write (n, conn.Write calls made, 0 ok / 1 error / 2 panic, counter of sendNonce
+   afterwards).  frames_i: per conn.Write call (counter under which the reader's AEAD opens the
+   buffer handed over, -1: none in the window; bytes handed over; bytes that reached the wire).
+   xor_i: pairs i < j of conn.Write calls whose bytes on the wire satisfy, on a common prefix of
+   >= 16 bytes, c_i xor c_j = p_i xor p_j for the plaintext prefixes the harness knows (length
+   header and chunk): the same keystream twice, seen without any key.
+   The reader's net.Conn delivers the bytes that reached the wire with short reads and injected
+   read errors at byte offsets (each once); evs is what the successive io.ReadFull(conn, 1044)
+   calls get under that schedule (EG i: exactly the buffer of conn.Write call i; EJ: other 1044
+   bytes; EE l: l bytes, then an error).  reads: as in CStream plus what the bytes taken during
+   that Read are (-1 none taken, i: exactly the buffer of conn.Write call i, -2 anything else). *)
+| CFault (hs_ok : bool) (send0 recv0 : string) (buf0 : Z) (writes : list string)
+         (script : list Z) (wres_i : list (Z * Z * N * N)) (frames_i : list (Z * Z * Z))
+         (xor_i : list (nat * nat)) (evs : list ev) (reads : list (readt * Z)).
 
 Definition mism (b : bool) (code : N) : verdict := if b then V_ok else V_mismatch code.
 Definition viol (b : bool) (clause : N) : verdict := if b then V_ok else V_violation clause.
@@ -164,6 +182,61 @@ Fixpoint nodup_z (l : list Z) : bool :=
   match l with [] => true | x :: r => negb (existsb (Z.eqb x) r) && nodup_z r end.
 
 Definition wcode (w : wres scipher) : N := if w_panic w then 2%N else 0%N.
+
+(* ---- transport faults *)
+Definition to_tout (z : Z) : tout := if z <? 0 then TOk else TErr (Z.to_nat z).
+Definition wcode_t (w : wres_t scipher) : N :=
+  if wt_panic w then 2%N else if wt_err w then 1%N else 0%N.
+Definition reached (o : tout) : Z :=
+  match o with TOk => sealed_sz | TErr m => Z.min (Z.of_nat m) sealed_sz end.
+
+(* monitor (clause 4): after every Write sendNonce has moved by the number of frames that were
+   sealed and handed to the conn during it, whether or not the conn took them *)
+Fixpoint nonce_steps (cur : Z) (l : list (Z * Z * N * N)) : bool :=
+  match l with
+  | [] => true
+  | (_, calls, code, after) :: r =>
+    ((code =? 2)%N || (Z.of_N after =? cur + calls)) && nonce_steps (Z.of_N after) r
+  end.
+
+(* monitor (clause 2): Write reports an error only when a conn.Write of it failed (the last one
+   it made), and a Write without error accepted all its bytes.  start = conn.Write calls so far *)
+Fixpoint write_errors_ok (script : list Z) (start : Z) (ws : list bytes) (l : list (Z * Z * N * N))
+  : bool :=
+  match ws, l with
+  | d :: ws', (n, calls, code, _) :: r =>
+    (if (code =? 0)%N then n =? Z.of_nat (List.length d)
+     else if (code =? 1)%N then
+       (0 <? calls) && (0 <=? nth (Z.to_nat (start + calls - 1)) script (-1))
+       && (0 <=? n) && (n <=? Z.of_nat (List.length d))
+     else true)
+    && write_errors_ok script (start + calls) ws' r
+  | _, _ => true
+  end.
+
+(* the plaintext carried by the frames handed to the conn, from the implementation's own call
+   counts: the i-th Write made [calls] conn.Write calls = the first calls*dataMaxSize bytes *)
+Fixpoint handed_plain (ws : list bytes) (l : list (Z * Z * N * N)) : bytes :=
+  match ws, l with
+  | d :: ws', (_, calls, _, _) :: r =>
+    firstn (Z.to_nat (calls * sc_data_max_size)) d ++ handed_plain ws' r
+  | _, _ => []
+  end.
+
+(* monitor on the reads (clauses 2 and 3) from what each Read took off the wire.  j = frames
+   accepted so far.  A Read that took bytes and returned no error must have taken exactly the
+   buffer of conn.Write call j (else 3); a Read that took exactly that buffer must not fail (2) *)
+Fixpoint walk_reads_f (j : Z) (pos : Z) (reads : list (readt * Z)) : N :=
+  match reads with
+  | [] => 0%N
+  | (r, what) :: rest =>
+    let pos' := read_pos r in
+    if pos' =? pos then walk_reads_f j pos' rest
+    else if (read_err r =? 0)%N then
+      if what =? j then walk_reads_f (j + 1) pos' rest else 3%N
+    else
+      if what =? j then 2%N else walk_reads_f j pos' rest
+  end.
 
 (* ---- handshake with toy (symbolic, injective) primitives *)
 Definition t_eph_pub (n : N) : bytes := repeat n 32.
@@ -281,6 +354,60 @@ Definition check (c : case) : verdict :=
               (map (fun w => (Z.of_nat (w_n w), Z.of_nat (List.length (w_sent w)), wcode w)) mw)
               wres_i) 11;
       mism (nframes =? Z.of_nat (List.length frames)) 12;
+      mism (list_eqb2 (fun (a : N * bytes * Z) (r : readt) =>
+                        let '(e, d, _) := a in (e =? read_err r)%N && bytes_eqb d (read_data r))
+              mr reads) 13;
+      mism (list_eqb2 (fun (a : N * bytes * Z) (r : readt) =>
+                        let '(_, _, p) := a in p =? read_pos r) mr reads) 14;
+      mism (forallb (fun r => read_pos r <=? wire_len) reads) 14 ]
+  | CFault hs_ok send0 recv0 buf0 writes script wres_i frames_i xor_i evs readsf =>
+    let ws := map unhex writes in
+    let mw := run_writes_t N scipher sseal no_stale 0%N (unhex send0) ws (map to_tout script) in
+    let mwire := flat_map (fun w => wt_wire w) mw in
+    let frames := map (fun x : bytes * scipher * tout => snd (fst x)) mwire in
+    let conn := map (ev_cipher frames) evs in
+    let reads := map fst readsf in
+    let st0 := {| r_buf := []; r_nonce := unhex recv0 |} in
+    let mr := model_reads st0 conn (map ev_size evs) 0 (map read_cap reads) in
+    let all_data := flat_map read_data reads in
+    let handed := handed_plain ws wres_i in
+    let c0 := Z.of_N (ctr_of_nonce (unhex send0)) in
+    let fn := map (fun f : Z * Z * Z => let '(c, _, _) := f in c) frames_i in
+    let w := walk_reads_f 0 0 readsf in
+    let wire_len := fold_left Z.add (map ev_size evs) 0 in
+    first_of [
+      viol hs_ok 8;
+      (* 4: every sealed frame handed to the conn - delivered, cut short or refused - was sealed
+         under its own counter: c0, c0+1, ... across failed conn.Writes and the Writes after them *)
+      viol (nodup_z fn) 4;
+      viol (list_eqb Z.eqb fn (map (fun i => c0 + Z.of_nat i) (seq 0 (List.length fn)))) 4;
+      (* 4: no two frames on the wire under the same keystream (seen without keys) *)
+      viol (match xor_i with [] => true | _ => false end) 4;
+      (* 4: sendNonce moves past every frame sealed, also the one whose conn.Write failed *)
+      viol (nonce_steps c0 wres_i) 4;
+      (* 1: what Read returned is a prefix of the plaintext of the frames handed to the conn *)
+      viol (is_prefix all_data handed) 1;
+      viol (forallb (fun r => (0 <=? read_n r) && (read_n r <=? read_cap r) &&
+                              (read_n r =? Z.of_nat (List.length (read_data r)))) reads) 1;
+      (* 2/3: frame by frame *)
+      viol (negb (w =? 2)%N) 2;
+      viol (negb (w =? 3)%N) 3;
+      (* 2: Write fails only with the transport, otherwise accepts all its bytes *)
+      viol (write_errors_ok script 0 ws wres_i) 2;
+      (* model vs implementation *)
+      mism (buf0 =? 0) 10;
+      mism (list_eqb2 (fun (a : Z * Z * N) (b : Z * Z * N * N) =>
+                        let '(n, f, e) := a in let '(n', f', e', _) := b in
+                        (n =? n') && (f =? f') && (e =? e')%N)
+              (map (fun w => (Z.of_nat (wt_n w), Z.of_nat (List.length (wt_wire w)), wcode_t w)) mw)
+              wres_i) 20;
+      mism (list_eqb2 (fun (w : wres_t scipher) (b : Z * Z * N * N) =>
+                        let '(_, _, _, after) := b in (ctr_of_nonce (wt_nonce w) =? after)%N)
+              mw wres_i) 21;
+      mism (list_eqb2 (fun (x : bytes * scipher * tout) (f : Z * Z * Z) =>
+                        let '(_, handed_len, got) := f in
+                        (handed_len =? sealed_sz) && (got =? reached (snd x)))
+              mwire frames_i) 22;
       mism (list_eqb2 (fun (a : N * bytes * Z) (r : readt) =>
                         let '(e, d, _) := a in (e =? read_err r)%N && bytes_eqb d (read_data r))
               mr reads) 13;
